@@ -367,7 +367,10 @@ def analyze(ctx, want):
         ht = p.calls(r"ScannerImpl::has_transition$")
         if v == "Some":
             payload = ("field", ("downcast", res, "Some"), "0")
-            ok_adv = len(adv) == 1 and adv[0][3][1] == payload and adv[0][3][0][0] == "ref" and adv[0][3][0][1][1][0] == "local"
+            a1_ = adv[0][3][1] if len(adv) == 1 else None
+            if a1_ is not None and a1_[0] == "ref":       # the helper may take the match by reference: its value at call time
+                a1_ = argval(adv[0], 1)
+            ok_adv = len(adv) == 1 and a1_ == payload and adv[0][3][0][0] == "ref" and adv[0][3][0][1][1][0] == "local"
             ob("C11.d", "peek_n:local-cursor-advanced-with-unshifted-match", ok_adv,
                "advance_char_indices_beyond_match(%s)" % [", ".join(S.vstr(y) for y in x[3]) for x in adv], pk.loc())
             ob("C11.b", "peek_n:no-skip-on-match", not nexts, "cursor.next() on the match path", pk.loc())
@@ -494,7 +497,9 @@ def analyze(ctx, want):
     # scanner_modes -> dfa; any other written field of the crate's own types that the scan path reads somewhere is a
     # channel from a peek into the outcome of a later call (a memo, a counter that is consulted, a flag)
     scratch = {("FindMatchesImpl", "scanner_impl"), ("ScannerImpl", "scanner_modes"), ("CompiledScannerMode", "dfa"),
-               ("CompiledDfa", "current_states"), ("CompiledDfa", "next_states")}
+               ("CompiledDfa", "current_states"), ("CompiledDfa", "next_states"),
+               # borrow path to the scratch buffers of a lookahead automaton (an explicit `&mut self.nfa` / `lookaheads.get_mut`)
+               ("CompiledLookahead", "nfa"), ("CompiledDfa", "lookaheads")}
     own = lambda a: a.startswith("internal::") or a.startswith("find_matches") or a.startswith("scanner")
     extra = sorted(x for x in w if own(x[0]) and (x[0].split("::")[-1].split("<")[0], x[1]) not in scratch)
     if extra:
@@ -859,7 +864,7 @@ def analyze(ctx, want):
         ob("C09.c", "record_line_offset:newline-test-on-last_char", S.vstr(c) == "self.last_char", "tests %s" % S.vstr(c), rl.loc())
         seen_nl.add(o)
         if o is True:
-            ok = len(mg) == 1 and single_element(ex.deref_val(p, mg[0][3][1]) if mg[0][3][1][0] == "ref" else mg[0][3][1]) == ("sym", "i")
+            ok = len(mg) == 1 and single_element(ex.deref_val(p, mg[0][3][1]) if mg[0][3][1][0] == "ref" else mg[0][3][1], ex, p) == ("sym", "i")
             ob("C09.d", "record_line_offset:records-the-given-offset-after-newline", ok, "merge_line_offsets(%s)" % [S.vstr(x[3][1]) for x in mg], rl.loc())
         else:
             ob("C09.c", "record_line_offset:no-record-without-newline", not mg, "merge without newline", rl.loc())
@@ -924,7 +929,10 @@ def analyze(ctx, want):
         if r[0] == "adt":
             names = None
             lo = r[3][5] if len(r[3]) > 5 else None
-            ob("C09.b", "new:line_offsets-starts-with-[0]", lo == ("vec", (("int", 0),)), "line_offsets := %s" % (S.vstr(lo) if lo else None), new.loc())
+            lo_ = lo
+            while lo_ is not None and lo_[0] == "app" and len(lo_[2]) == 1 and re.search(r"From<.*>>::from$|Into<.*>>::into$|<impl \[.*\]>::(to_vec|into_vec)$|slice::to_vec$|Vec::<.*>::from$", str(lo_[1])):
+                lo_ = lo_[2][0]
+            ob("C09.b", "new:line_offsets-starts-with-[0]", lo_ in (("vec", (("int", 0),)), ("array", (("int", 0),))), "line_offsets := %s" % (S.vstr(lo) if lo else None), new.loc())
             ob("C10.c", "new:cursor-over-whole-input-and-offset-0", S.vstr(r[3][2]) in ("str::char_indices(&*input)", "str::char_indices(&input)") and r[3][6] == ("int", 0) and r[3][3] == ("int", 0),
                "char_indices := %s, last_position := %s, offset := %s" % (S.vstr(r[3][2]), S.vstr(r[3][3]), S.vstr(r[3][6])), new.loc())
             ob("C09.a", "new:last_char-neutral", S.vstr(r[3][4]).startswith("'\\x00'") or S.vstr(r[3][4]) == "'\x00'", "last_char := %r" % S.vstr(r[3][4]), new.loc())
@@ -1098,8 +1106,13 @@ def analyze(ctx, want):
                 ob("C09.e", "with_positions:one-token-taken-from-the-wrapped-iterator", ok, "calls %s" % [M.short_name(x[2]) for x in p.calls(".")], fn.loc())
 
 
-def single_element(v):
-    """x if v is a one-element batch of line starts: vec![x], [x], std::iter::once(x), Some(x)"""
+def single_element(v, ex=None, p=None):
+    """x if v is a one-element batch of line starts: vec![x], [x], std::iter::once(x), Some(x), slice::from_ref(&x)"""
+    while v[0] == "deref":
+        v = v[1]
+    if v[0] == "app" and re.search(r"slice::from_ref(::<.*>)?$", str(v[1])) and len(v[2]) == 1:
+        x = v[2][0]
+        return ex.deref_val(p, x) if (x[0] == "ref" and ex is not None) else x
     if v[0] in ("vec", "array") and len(v[1]) == 1:
         return v[1][0]
     if v[0] == "app" and re.search(r"iter::once(::<.*>)?$|iter::sources::once::once", str(v[1])) and len(v[2]) == 1:
@@ -1115,7 +1128,7 @@ def recorded_line_starts(ex, p):
     for mg in p.calls(r"merge_line_offsets(::<.*>)?$"):
         a = mg[3][1]
         a = ex.deref_val(p, a) if a[0] == "ref" else a
-        x = single_element(a)
+        x = single_element(a, ex, p)
         if x is not None:
             out.append((x, mg[1]))
     return out
